@@ -45,8 +45,12 @@
                                           m = token and payload type it was given, h = header its context reports
 
   Further commands:
-      mw.run … <m0>,<c0>,<op0>,<hm>          hm := 0 (HdrMode.entry, default) | 1 (HdrMode.core): where
-                                             the server makes the batch context (probed by the engine)
+      mw.run … <m0>,<c0>,<op0>,<hm>          hm := 0 (HdrMode.entry: the code before 4b5c841) | 1 (HdrMode.core:
+                                             the code at HEAD, and what `runImpl` is — used when <hm> is
+                                             absent): where the server makes the batch context the handlers
+                                             see (probed by the engine on every run)
+      mw.hdrmode go                          → ok <hm> : the mode `runImpl` (model of the code at HEAD) has; the
+                                             harness answers with what it probed on the real code
       mw.both <mchain> <ichain> <core> <m0>,<c0>,<op0>,<hm>
                                              message chain (stage ids 1, 2, …) AND item chain (stage ids
                                              101, 102, …) installed; answer as mw.run
@@ -268,6 +272,9 @@ def handleMiddleware (cmd arg : String) : Option String :=
   | "mw.conc" => some (Mw.runConcCmd arg)
   | "mw.spec" => some (Mw.run runSpec arg)
   | "mw.old" => some (Mw.run runOld arg)
+  | "mw.hdrmode" =>
+    -- `hdrOf` (the header function of `runImpl`) on a message other than the original one
+    some ("ok " ++ (if hdrOf .srvmsg ⟨7, 1⟩ ⟨71, 1⟩ = 71 then "1" else "0"))
   | _ => none
 
 end Driver
